@@ -152,16 +152,26 @@ Print Assumptions C19_format_twice_is_stable.
 Definition C19_formatted_no_edits_full_statement : Prop :=
   forall x y, fmt_bytes x = Ok y -> fmt_diffs y = Ok [].
 
-(* [aligned ds true (-1)] (boolean, BclFmtDiffsIdemProofs.v): the first diff starts on line 0, every diff spans exactly
-   the lines of its own text, the next starts on the line where the previous ended or one line later.
+(* [extent_ok ds] (boolean, BclFmtDiffsIdemProofs.v): every diff spans exactly as many lines as its own text has
+   (fd_to = fd_from + number of lines of the text).
    Proved for EVERY input the formatter accepts: the output y is the joined text of the diffs ds the second run
-   computes from y, and if ds is aligned FmtDiffs(y) merges nothing and returns the empty list (no leading edit,
-   no gap edit, every lines[from:to] equals the diff's text).  Missing for the full statement: that the
-   fragments read back from y end exactly (number of lines of their text - 1) lines after they start. *)
+   computes from y; the START lines of ds are exact (the first diff starts on line 0, each next one on the line where
+   the previous ended, or one line later when Fmt printed an empty line: walk_stream_pos); and if extent_ok ds,
+   FmtDiffs(y) merges nothing and returns the empty list (no leading edit, no gap edit, every lines[from:to] equals
+   the diff's text).  Missing for the full statement: extent_ok itself, i.e. that a fragment read back from y ends
+   exactly (number of lines of its text - 1) lines after it starts (token END positions vs. newlines of the literal). *)
 Theorem C19_formatted_no_edits_partial : forall x y, fmt_bytes x = Ok y ->
-  exists ds, collect_fmt (utf8_decode y) = Ok ds /\ y = utf8_encode (fmt_join ds true (-1)) /\ (aligned ds true (-1) = true -> fmt_diffs y = Ok []).
-Proof. exact fmt_diffs_idem_partial. Qed.
+  exists ds, collect_fmt (utf8_decode y) = Ok ds /\ y = utf8_encode (fmt_join ds true (-1)) /\
+             (extent_ok ds = true -> fmt_diffs y = Ok []).
+Proof. exact fmt_diffs_idem_extent. Qed.
 Print Assumptions C19_formatted_no_edits_partial.
+
+(* the same under the stronger, self-contained condition [aligned ds true (-1)] (starts and extents) *)
+Theorem C19_formatted_no_edits_aligned : forall x y, fmt_bytes x = Ok y ->
+  exists ds, collect_fmt (utf8_decode y) = Ok ds /\ y = utf8_encode (fmt_join ds true (-1)) /\
+             (aligned ds true (-1) = true -> fmt_diffs y = Ok []).
+Proof. exact fmt_diffs_idem_partial. Qed.
+Print Assumptions C19_formatted_no_edits_aligned.
 
 (* the loop-level fact, for any diff list whose texts end with a newline (no parser involved) *)
 Theorem C19_aligned_diffs_no_edits : forall ms,
@@ -175,7 +185,7 @@ Print Assumptions C19_aligned_diffs_no_edits.
    from one source line; the second run's diffs are aligned and the edit list is empty *)
 Example C19_formatted_no_edits_example :
   let src := [10;10;97;32;98;32;47;47;32;99;10;32;32;10;120;61;49;10;125;32;47;47;32;99;10]%N in
-  exists y ds, fmt_bytes src = Ok y /\ collect_fmt (utf8_decode y) = Ok ds /\ length ds = 4%nat /\ aligned ds true (-1) = true /\ fmt_diffs y = Ok [].
+  exists y ds, fmt_bytes src = Ok y /\ collect_fmt (utf8_decode y) = Ok ds /\ length ds = 4%nat /\ extent_ok ds = true /\ aligned ds true (-1) = true /\ fmt_diffs y = Ok [].
 Proof. cbv zeta. do 2 eexists. split; [vm_compute; reflexivity|]. split; [vm_compute; reflexivity|]. repeat split; vm_compute; reflexivity. Qed.
 
 (* ---- the model is the code (tie) ---------------------------------------------------------------------- *)
